@@ -33,7 +33,11 @@ def plan(tier: str, seed: int) -> list[dict]:
 
 
 def hdlc_noise(rng, cfg):
-    kind = rng.choice(("random", "dense", "lookalike", "abort", "esc_end", "truncated", "truncated_after_hcs", "overlong", "flag_esc", "none", "open_frame", "idle_line", "length_sweep", "short_then_overlong", "abort_after_header"))
+    kind = rng.choice(("random", "dense", "lookalike", "abort", "esc_end", "truncated", "truncated_after_hcs", "overlong", "flag_esc", "none", "open_frame", "idle_line", "length_sweep", "short_then_overlong", "abort_after_header", "long_run"))
+    if kind == "long_run":
+        # 950..9000 equal octets after a flag / frame start (zeros, even octets, flags, escapes, ...)
+        out, _k = hdlc_gen.long_run(rng)
+        return out, kind
     if kind == "truncated":
         fr, _ = hdlc_gen.good_frame(rng, None, max_info=80, want_info=True)
         w = hdlc_gen.on_wire(fr, cfg[0])
